@@ -9,9 +9,13 @@ use zlink_core::Connection;
 /// same whatever an earlier exchange left behind in the connection): returns the kind of history made.
 ///   0 nothing; 1 a plain exchange; 2 a `more` exchange (two continuing replies and a final one);
 ///   3 a `more` exchange that ended with an error; 4 an exchange answered with an error; 5 a 3 KB call and a
-///   3 KB reply (both buffers grown); 6 a oneway call; 7 two pipelined exchanges
+///   3 KB reply (both buffers grown); 6 a oneway call; 7 two pipelined exchanges; 8 messages that were refused
+///   (a call whose parameters cannot be encoded, offered to enqueue_call, send_call and as the first call of a chain);
+///   9 an exchange made through a chain (two calls, replies taken from its stream); 10 a receive that was abandoned
+///   while it waited, then the exchange completed by a later receive
+pub const HISTORIES: u8 = 11;
 pub fn warm_up(conn: &mut Connection<VSocket>, wire: &WireRef, rng: &mut Rng) -> u8 {
-    let kind = rng.below(8) as u8;
+    let kind = rng.below(HISTORIES as usize) as u8;
     warm_up_kind(conn, wire, kind);
     kind
 }
@@ -62,6 +66,51 @@ pub fn warm_up_kind(conn: &mut Connection<VSocket>, wire: &WireRef, kind: u8) {
         }
         6 => {
             let _ = crate::block_on(conn.send_call(&call("h.Fire", false, true, 3)), 8);
+        }
+        8 => {
+            #[derive(serde::Serialize, Debug)]
+            struct Bad {
+                method: &'static str,
+                parameters: std::collections::BTreeMap<(u8, u8), u8>,
+            }
+            let bad = || Call::new(Bad { method: "h.Bad", parameters: [((1, 2), 3)].into_iter().collect() });
+            let a = conn.enqueue_call(&bad()).is_err();
+            let b = conn.chain_call::<Bad, Value, Value>(&bad()).is_err();
+            let c = matches!(crate::block_on(conn.send_call(&bad()), 8), Some(Err(_)));
+            let d = conn.chain_call::<Bad, Value, Value>(&bad().set_more(true)).is_err();
+            assert!(a && b && c && d, "a call with tuple-keyed parameters must be refused");
+        }
+        9 => {
+            use futures_util::StreamExt;
+            push(&[r#"{"parameters":{"x":1}}"#.to_string(), r#"{"parameters":{"x":2},"continues":false}"#.to_string()]);
+            if let Ok(chain) = conn.chain_call::<Value, Value, Value>(&call("h.One", false, false, 3)) {
+                if let Ok(chain) = chain.append(&call("h.Fire", false, true, 1)).and_then(|c| c.append(&call("h.Two", false, false, 2))) {
+                    if let Some(Ok(st)) = crate::block_on(chain.send(), 8) {
+                        let mut st = core::pin::pin!(st);
+                        for _ in 0..3 {
+                            if !matches!(crate::block_on(st.next(), 8), Some(Some(_))) {
+                                break;
+                            }
+                        }
+                    }
+                }
+            }
+        }
+        10 => {
+            let _ = crate::block_on(conn.send_call(&call("h.Slow", false, false, 3)), 8);
+            // half of the reply is there; the receive is given up while it waits for the rest
+            let reply = br#"{"parameters":{"x":"a reply that arrives in two pieces"}}"#;
+            wire.borrow_mut().push(Rx::Bytes(reply[..20].to_vec()));
+            {
+                let fut = conn.receive_reply::<Value, Value>();
+                let mut fut = core::pin::pin!(fut);
+                let _ = crate::poll_once(fut.as_mut());
+                let _ = crate::poll_once(fut.as_mut());
+            }
+            let mut rest = reply[20..].to_vec();
+            rest.push(0);
+            wire.borrow_mut().push(Rx::Bytes(rest));
+            recv(conn, 1);
         }
         _ => {
             push(&[r#"{"parameters":{"x":1}}"#.to_string(), r#"{"parameters":{"x":2}}"#.to_string()]);
